@@ -9,7 +9,7 @@ from worlds import master
 ID = "C20"
 LEVEL = "exploration"
 DESIGN_REF = "DESIGN.md §4 C20"
-QUICK_RUNS = 8000
+QUICK_RUNS = 16000
 THOROUGH_MIN_RUNS = 40000
 BATCH = 100
 CASE_WALL_S = 60.0
